@@ -43,6 +43,7 @@ pub mod verif {
     pub use crate::router::verif::{VerifConnection, VerifGroup, VerifSnapshot};
     pub use crate::router::{Ack, Connection, Event, Print, ShadowRequest};
     pub use crate::segments::{CommitLog, Position, Storage};
+    pub use crate::server::verif::{verif_remote, VerifWillHandlers};
 }
 
 pub type ConnectionId = usize;
